@@ -273,7 +273,17 @@ def search(ctx):
         for _ in range(ctx.budget(8, 100)):
             kinds = r.sample(kinds_all, r.randrange(2, 4))
             cm, comps = B.gen_file(r, enc_prob=0.2, max_comps=1)
-            b = Bec2File(B.build(cm, comps), blocks_of(kinds), C.gen_key(r))
+            from bec2format.bec2file import UnknownAuthBlock
+            blks = blocks_of(kinds)
+            unknown = {}
+            if r.random() < 0.6:
+                # blocks with a tag the library does not know (no decryptor can exist for them): kept as they are
+                for _u in range(r.choice([1, 1, 2])):
+                    t = r.choice([4, 5, 7, 0x7F, 0xFE, 0xFF])
+                    unknown[t] = bytes(r.randrange(256) for _ in range(r.choice([0, 1, 16, 82, 200])))
+                for t, v in unknown.items():
+                    blks.insert(r.randrange(len(blks) + 1), UnknownAuthBlock(t, v))
+            b = Bec2File(B.build(cm, comps), blks, C.gen_key(r))
             s = io.StringIO()
             b.write_file(s, encs_of(kinds))
             text = s.getvalue()
@@ -281,12 +291,25 @@ def search(ctx):
             orig = dict(parse_header(binary_of(text))[0])
             tagof = {"custkey": 1, "ecc": 3, "update": 2}
             ctx.case(("pass", tuple(kinds), tuple(opened), text))
+            for t, v in unknown.items():
+                if orig.get(t) != v:
+                    ctx.fail("passthrough-changed", {"kinds": kinds, "unknown_tags": sorted(unknown), "cycle": -1},
+                             "unknown block %d not written as given" % t)
             for cyc in range(3):
-                g = Bec2File.read_file(io.StringIO(text), decs_of(opened), True)
+                gr = run_impl(Bec2File.read_file, io.StringIO(text), decs_of(opened), True)
+                if gr[0] != "ok":
+                    ctx.fail("passthrough-changed", {"kinds": kinds, "opened": opened, "unknown_tags": sorted(unknown), "cycle": cyc},
+                             "a file with openable blocks %r (and unknown blocks %r) cannot be read: %r" % (opened, sorted(unknown), gr))
+                    break
+                g = gr[1]
                 s = io.StringIO()
                 g.write_file(s, encs_of(opened))
                 text = s.getvalue()
                 now = dict(parse_header(binary_of(text))[0])
+                for t, v in unknown.items():
+                    if now.get(t) != v:
+                        ctx.fail("passthrough-changed", {"kinds": kinds, "opened": opened, "unknown_tags": sorted(unknown), "cycle": cyc},
+                                 "unknown block %d not kept byte for byte" % t)
                 for k in kinds:
                     if k not in opened and now.get(tagof[k]) != orig[tagof[k]]:
                         ctx.fail("passthrough-changed", {"kinds": kinds, "opened": opened, "cycle": cyc},
